@@ -13,6 +13,16 @@ package c02
 //   DOCX/ODT/HTML spans k r one row of k cells spanning `span` columns (and, ODT/HTML,
 //                           `span` rows), followed by r empty rows: k x span x r cells
 //   EPUB spine-repeat n s   a spine that lists one chapter of s bytes n times
+//        spine-spellings n s
+//        spine-spellings-dir n s
+//                           n manifest items with n different ids, whose hrefs are n
+//                           different spellings of the SAME content document of s bytes
+//                           (URL references that are equal after RFC 3986 normalisation:
+//                           "./" and "x/../" segments, percent-encoded unreserved
+//                           characters in either hex case, "../<own directory>/"), all in
+//                           the spine; -dir: the package document sits in OEBPS/. The
+//                           logical document is one chapter, the archive holds s bytes of
+//                           content: whatever is returned cannot be larger than that
 //   HTML inline-nest n k    n nested inline elements (k picks i/span/em/a/font/b) in a paragraph,
 //   EPUB chapter-nest n     the same inside an EPUB chapter: x/net/html has no depth limit
 //        nav-nest n         n nested inline elements inside the toc entry of the nav
@@ -26,6 +36,7 @@ import (
 	"runtime/debug"
 	"strings"
 
+	"github.com/tsawler/tabula"
 	"github.com/tsawler/tabula/epubdoc"
 
 	"verifharness/hx"
@@ -128,7 +139,41 @@ func spanDoc(format string, k, r, span int) []byte {
 	}
 }
 
+// hrefSpelling: the i-th spelling of the relative reference name from a package document
+// in directory dir ("" = the archive root). i = 0 is the name itself.
+func hrefSpelling(i int, name, dir string) string {
+	mask, j := i%(1<<uint(len(name))), i/(1<<uint(len(name)))
+	var b strings.Builder
+	switch j % 3 {
+	case 0:
+		b.WriteString(strings.Repeat("./", j/3))
+	case 1:
+		b.WriteString(strings.Repeat("x/../", j/3+1))
+	case 2:
+		if dir != "" {
+			b.WriteString(strings.Repeat("../"+dir+"/", j/3+1))
+		} else {
+			b.WriteString("./" + strings.Repeat("y/z/../../", j/3+1))
+		}
+	}
+	for p := 0; p < len(name); p++ {
+		switch {
+		case mask>>uint(p)&1 == 0:
+			b.WriteByte(name[p])
+		case j%2 == 0:
+			fmt.Fprintf(&b, "%%%02X", name[p])
+		default:
+			fmt.Fprintf(&b, "%%%02x", name[p])
+		}
+	}
+	return b.String()
+}
+
+// shapeContent: the uncompressed size of the archive the last epubShape call built.
+var shapeContent int
+
 func epubShape(s shapeCase) []byte {
+	dir, items := "", ""
 	chapter := `<?xml version="1.0" encoding="UTF-8"?><html xmlns="http://www.w3.org/1999/xhtml"><head><title>C</title></head><body><h1>Chapter</h1><p>text</p></body></html>`
 	nav := `<a href="a.xhtml">Start</a>`
 	spine := `<itemref idref="a"/>`
@@ -136,19 +181,39 @@ func epubShape(s shapeCase) []byte {
 	case "spine-repeat":
 		chapter = strings.Replace(chapter, "<p>text</p>", "<p>"+strings.Repeat("word ", s.K/5)+"</p>", 1)
 		spine = strings.Repeat(spine, s.N)
+	case "spine-spellings", "spine-spellings-dir":
+		chapter = strings.Replace(chapter, "<p>text</p>", "<p>"+strings.Repeat("word ", s.K/5)+"</p>", 1)
+		if s.Shape == "spine-spellings-dir" {
+			dir = "OEBPS"
+		}
+		var mb, sb strings.Builder
+		for i := 1; i < s.N; i++ {
+			fmt.Fprintf(&mb, `<item id="a%d" href="%s" media-type="application/xhtml+xml"/>`, i, hrefSpelling(i, "a.xhtml", dir))
+			fmt.Fprintf(&sb, `<itemref idref="a%d"/>`, i)
+		}
+		items, spine = mb.String(), spine+sb.String()
 	case "chapter-nest":
 		chapter = strings.Replace(chapter, "<p>text</p>", "<p>"+strings.Repeat("<i>", s.N)+"text</p>", 1)
 	case "nav-nest":
 		nav = `<a href="a.xhtml">` + strings.Repeat("<i>", s.N) + "Start" + strings.Repeat("</i>", s.N) + `</a>`
 	}
-	opf := `<?xml version="1.0" encoding="UTF-8"?><package xmlns="http://www.idpf.org/2007/opf" version="3.0" unique-identifier="uid"><metadata xmlns:dc="http://purl.org/dc/elements/1.1/"><dc:identifier id="uid">urn:uuid:c02</dc:identifier><dc:title>T</dc:title><dc:language>en</dc:language><meta property="dcterms:modified">2024-01-01T00:00:00Z</meta></metadata><manifest><item id="a" href="a.xhtml" media-type="application/xhtml+xml"/><item id="nav" href="nav.xhtml" media-type="application/xhtml+xml" properties="nav"/></manifest><spine>` + spine + `</spine></package>`
-	return writers.Zip([]writers.Member{
+	opf := `<?xml version="1.0" encoding="UTF-8"?><package xmlns="http://www.idpf.org/2007/opf" version="3.0" unique-identifier="uid"><metadata xmlns:dc="http://purl.org/dc/elements/1.1/"><dc:identifier id="uid">urn:uuid:c02</dc:identifier><dc:title>T</dc:title><dc:language>en</dc:language><meta property="dcterms:modified">2024-01-01T00:00:00Z</meta></metadata><manifest><item id="a" href="a.xhtml" media-type="application/xhtml+xml"/>` + items + `<item id="nav" href="nav.xhtml" media-type="application/xhtml+xml" properties="nav"/></manifest><spine>` + spine + `</spine></package>`
+	at := ""
+	if dir != "" {
+		at = dir + "/"
+	}
+	ms := []writers.Member{
 		{Name: "mimetype", Data: []byte("application/epub+zip"), Store: true},
-		{Name: "META-INF/container.xml", Data: []byte(`<?xml version="1.0" encoding="UTF-8"?><container version="1.0" xmlns="urn:oasis:names:tc:opendocument:xmlns:container"><rootfiles><rootfile full-path="content.opf" media-type="application/oebps-package+xml"/></rootfiles></container>`)},
-		{Name: "content.opf", Data: []byte(opf)},
-		{Name: "a.xhtml", Data: []byte(chapter)},
-		{Name: "nav.xhtml", Data: []byte(`<?xml version="1.0" encoding="UTF-8"?><html xmlns="http://www.w3.org/1999/xhtml" xmlns:epub="http://www.idpf.org/2007/ops"><head><title>Nav</title></head><body><nav epub:type="toc"><ol><li>` + nav + `</li></ol></nav></body></html>`)},
-	})
+		{Name: "META-INF/container.xml", Data: []byte(`<?xml version="1.0" encoding="UTF-8"?><container version="1.0" xmlns="urn:oasis:names:tc:opendocument:xmlns:container"><rootfiles><rootfile full-path="` + at + `content.opf" media-type="application/oebps-package+xml"/></rootfiles></container>`)},
+		{Name: at + "content.opf", Data: []byte(opf)},
+		{Name: at + "a.xhtml", Data: []byte(chapter)},
+		{Name: at + "nav.xhtml", Data: []byte(`<?xml version="1.0" encoding="UTF-8"?><html xmlns="http://www.w3.org/1999/xhtml" xmlns:epub="http://www.idpf.org/2007/ops"><head><title>Nav</title></head><body><nav epub:type="toc"><ol><li>` + nav + `</li></ol></nav></body></html>`)},
+	}
+	shapeContent = 0
+	for _, m := range ms {
+		shapeContent += len(m.Data)
+	}
+	return writers.Zip(ms)
 }
 
 func runShape(c *hx.Ctx, s shapeCase) {
@@ -185,6 +250,9 @@ func runShape(c *hx.Ctx, s shapeCase) {
 			rd.Metadata()
 		})
 		c.Rep.OracleChecks++
+		if strings.HasPrefix(s.Shape, "spine-") {
+			spineBounded(c, k, path, s)
+		}
 		os.Remove(path)
 	}
 	// the big shapes go through the entry points that read (and that build) the document only
@@ -195,12 +263,54 @@ func runShape(c *hx.Ctx, s shapeCase) {
 		exerciseOnly = map[string]bool{"Text": true, "Document+Chunks": lightBoth}
 	case "inline-nest", "chapter-nest", "nav-nest":
 		exerciseOnly = map[string]bool{"Text": true}
-	case "spans", "spine-repeat":
+	case "spans", "spine-repeat", "spine-spellings", "spine-spellings-dir":
 		exerciseOnly = map[string]bool{"Text": true, "ToMarkdown": true, "Document+Chunks": true}
 	}
 	runBytes(c, k, ext, data, "s")
 	exerciseOnly = nil
 	c.Count(s.Format + "-" + s.Shape)
+}
+
+// spineBounded: the spine shapes are ONE content document named many times. What the reader
+// keeps (chapter contents) and what it returns (Text) is made of the archive's content, so
+// neither can be much larger than the archive is when unpacked (twice its size and 4 KiB are
+// allowed for separators and titles); a result many times that size
+// means a resource was taken once per mention - memory and output then grow by one copy
+// of the document per ~70 bytes of package document, without bound.
+func spineBounded(c *hx.Ctx, k kase, path string, s shapeCase) {
+	content, limit := shapeContent, 2*shapeContent+4096
+	retained, chapters, text := -1, 0, -1
+	if !c.Guard("C02/epub-shapes-Chapters", k, 10, func() {
+		rd, err := epubdoc.Open(path)
+		if err != nil {
+			return
+		}
+		defer rd.Close()
+		retained = 0
+		for _, ch := range rd.Chapters() {
+			chapters++
+			retained += len(ch.Content)
+		}
+	}) {
+		return
+	}
+	if !c.Guard("C02/epub-shapes-Text", k, 10, func() {
+		t, _, err := tabula.Open(path).Text()
+		if err == nil {
+			text = len(t)
+		}
+	}) {
+		return
+	}
+	in := func() string {
+		return fmt.Sprintf("EPUB whose spine names one content document %d times (%s), archive of %d bytes unpacked", s.N, s.Shape, content)
+	}
+	c.Check("C02/epub-spine-retained-exceeds-content", retained <= limit, k, func() string {
+		return fmt.Sprintf("%s: the reader keeps %d chapters with %d bytes of content", in(), chapters, retained)
+	})
+	c.Check("C02/epub-spine-text-exceeds-content", text <= limit, k, func() string {
+		return fmt.Sprintf("%s: Text() returns %d bytes", in(), text)
+	})
 }
 
 func shapeCases(thorough bool) []shapeCase {
@@ -219,6 +329,14 @@ func shapeCases(thorough bool) []shapeCase {
 		if thorough {
 			out = append(out, shapeCase{f, "spans", 2000, 10}, shapeCase{f, "spans", 6000, 40}, shapeCase{f, "spans", 20000, 1})
 		}
+	}
+	for _, sh := range []string{"spine-spellings", "spine-spellings-dir"} {
+		// small first: the statement-level oracle speaks before the large one exhausts the process
+		out = append(out, shapeCase{"epub-shapes", sh, 2, 4000}, shapeCase{"epub-shapes", sh, 40, 64 << 10}, shapeCase{"epub-shapes", sh, 700, 64 << 10})
+	}
+	out = append(out, shapeCase{"epub-shapes", "spine-spellings", 3000, 256 << 10})
+	if thorough {
+		out = append(out, shapeCase{"epub-shapes", "spine-spellings-dir", 3000, 256 << 10}, shapeCase{"epub-shapes", "spine-spellings", 5000, 2 << 20})
 	}
 	out = append(out, shapeCase{"epub-shapes", "spine-repeat", 3, 1000}, shapeCase{"epub-shapes", "spine-repeat", 3000, 256 << 10},
 		shapeCase{"epub-shapes", "nav-nest", 100, 0}, shapeCase{"epub-shapes", "nav-nest", 300000, 0}, shapeCase{"epub-shapes", "chapter-nest", 300000, 0},
